@@ -1,6 +1,8 @@
 module integration-test-example
 
-go 1.20
+go 1.21
+
+toolchain go1.23.5
 
 replace github.com/Trendyol/go-dcp => ../../.
 
